@@ -529,3 +529,10 @@ def run(ck):
     ])
     ck.floor("C03-DICTRESET", 5)
     check_dict_siblings(ck, prog)
+    # state reset between LZMA2 chunks / Blocks initialises the whole model (shared with C01)
+    from . import C01, C05
+    C01.check_reset(ck, prog)
+    # a Block whose real sizes differ from its Block Header is not a valid Block (rules shared with C05)
+    ck.rule("C03-BLOCK", "block_decode: both sizes from the Block Header are compared with the counted sizes; end only after "
+                         "the filter chain finished")
+    evaluate(ck, prog, "C03-BLOCK", [t for t in C05.TABLE if getattr(t, "fn", "") == "block_decode"], floor=4)
